@@ -21,6 +21,8 @@ import BlockCiphers.Proofs.Idea
 import BlockCiphers.Proofs.AesSpec
 import BlockCiphers.Proofs.AesNi
 import BlockCiphers.Proofs.AesFixslice
+import BlockCiphers.Proofs.AesArmv8
+import BlockCiphers.Proofs.AesArmv8Bytes
 /-
 C01 — decryption inverts encryption for every cipher, key, block and backend
 GENERATED statement file (tools/gen_thm.py): every theorem below restates, verbatim, a theorem of a Proofs/ module
@@ -560,3 +562,49 @@ theorem C01.soft_roundtrip_256 (rk : Nat → AesFs64.St) (rk' : Nat → AesFs32.
     (AesFs32.single (AesFs32.aes256_decrypt_compact rk') (AesFs32.single (AesFs32.aes256_encrypt_compact rk') x) = x ∧ AesFs32.single (AesFs32.aes256_encrypt_compact rk') (AesFs32.single (AesFs32.aes256_decrypt_compact rk') x) = x) :=
   _root_.BC.AesSoft.soft_roundtrip_256 rk rk' x
 end BC.AesSoft
+
+namespace BC.AesArmv8
+open BC BC.X86 BC.Arm BC.Spec.Aes BC.AesNi
+theorem C01.armv8_decrypt128_encrypt128 (key b : BitVec 128) : decrypt128 key (encrypt128 key b) = b :=
+  _root_.BC.AesArmv8.decrypt128_encrypt128 key b
+end BC.AesArmv8
+
+namespace BC.AesArmv8
+open BC BC.X86 BC.Arm BC.Spec.Aes BC.AesNi
+theorem C01.armv8_encrypt128_decrypt128 (key b : BitVec 128) : encrypt128 key (decrypt128 key b) = b :=
+  _root_.BC.AesArmv8.encrypt128_decrypt128 key b
+end BC.AesArmv8
+
+namespace BC.AesArmv8
+open BC BC.X86 BC.Arm BC.Spec.Aes BC.AesNi
+theorem C01.armv8_decrypt192_encrypt192 (key : BitVec 192) (b : BitVec 128) : decrypt192 key (encrypt192 key b) = b :=
+  _root_.BC.AesArmv8.decrypt192_encrypt192 key b
+end BC.AesArmv8
+
+namespace BC.AesArmv8
+open BC BC.X86 BC.Arm BC.Spec.Aes BC.AesNi
+theorem C01.armv8_encrypt192_decrypt192 (key : BitVec 192) (b : BitVec 128) : encrypt192 key (decrypt192 key b) = b :=
+  _root_.BC.AesArmv8.encrypt192_decrypt192 key b
+end BC.AesArmv8
+
+namespace BC.AesArmv8
+open BC BC.X86 BC.Arm BC.Spec.Aes BC.AesNi
+theorem C01.armv8_decrypt256_encrypt256 (key : BitVec 256) (b : BitVec 128) : decrypt256 key (encrypt256 key b) = b :=
+  _root_.BC.AesArmv8.decrypt256_encrypt256 key b
+end BC.AesArmv8
+
+namespace BC.AesArmv8
+open BC BC.X86 BC.Arm BC.Spec.Aes BC.AesNi
+theorem C01.armv8_encrypt256_decrypt256 (key : BitVec 256) (b : BitVec 128) : encrypt256 key (decrypt256 key b) = b :=
+  _root_.BC.AesArmv8.encrypt256_decrypt256 key b
+end BC.AesArmv8
+
+namespace BC.AesArmv8
+open BC BC.X86 BC.Spec.Aes BC.AesNi
+open BC.Models.Aes BC.Models.AesArmv8
+/-- C01 at the registry level -/
+theorem C01.armv8_newCombined_roundtrip (f : Fam) (k : Bytes) (h : k.length = f.keyLen) :
+    ∃ c, Models.AesArmv8.newCombined f k = some c ∧
+      (∀ b, c.decrypt_block (c.encrypt_block b) = b) ∧ (∀ b, c.encrypt_block (c.decrypt_block b) = b) :=
+  _root_.BC.AesArmv8.newCombined_roundtrip f k h
+end BC.AesArmv8
